@@ -220,6 +220,9 @@ def Obj.mutate (o : Obj) (m : Mut) : Obj × Out :=
     | .cull ts =>
       if o.kind = .daily then (o, .refused .attr)
       else if 0 ≤ ts ∧ ts.toNat ∈ Gen.Ap.validTimesteps then
+        -- HourlyContinuousCollection.convert_to_culled_timestep (fix 2b7dc5a): the target timestep must
+        -- divide the current one (`assert current % target == 0`), else the call is refused
+        if o.kind = .cont ∧ o.ap.timestep % ts.toNat ≠ 0 then (o, .refused .assert) else
         let ds := o.datetimes
         ({ o with ap := { o.ap with timestep := ts.toNat }, vals := cullVals ts.toNat ds o.vals,
                   dts := some (cullDts ts.toNat ds) }, .done)
@@ -255,6 +258,7 @@ private def o0 : Obj :=
 #guard ((o0.mutate (.cull 1)).1.vals.length = 24) ∧ ((o0.mutate (.cull 1)).1.ap.timestep = 1)
 #guard (o0.mutate (.cull 1)).1.datetimes = contDts ⟨6, 21, 0, 6, 21, 23, 1, false⟩
 #guard (o0.mutate (.cull 7)).1.vals.length = 48
+#guard ((o0.mutate (.cull 4)).1.vals.length = 48) ∧ ((o0.mutate (.cull 4)).1.ap.timestep = 2)   -- 4 does not divide 2: refused
 #guard ((o0.mutate (.setitem (-1) 5)).1.vals.getD 47 0 = 5) ∧ ((o0.mutate (.setitem 48 5)).1.vals = o0.vals)
 
 end Grp
